@@ -105,6 +105,7 @@ theorem getPath_norm : ∀ (p : List Str) (j : J), getPath p (norm j) = (getPath
   | k :: q, .null => by simp [norm, getPath]
   | k :: q, .int _ => by simp [norm, getPath]
   | k :: q, .str _ => by simp [norm, getPath]
+  | k :: q, .atom _ => by simp [norm, getPath]
 
 /-! ### the per-path view of a wrapper tree -/
 
@@ -179,6 +180,7 @@ theorem setFields_upd : ∀ (wt : WT) (d : Dict) (wt' : WT), setFields wt d = .o
         | ok rest' => simp [hd, hr] at h; subst h; exact .nested (Upd.refl _) (setFields_upd rest d rest' hr)
       | int i => simp [hd] at h
       | str s => simp [hd] at h
+      | atom s => simp [hd] at h
       | dict d' =>
         cases hs : setFields sub d' with
         | error e => simp [hd, hs] at h
@@ -264,6 +266,7 @@ theorem slotAt_setFields : ∀ (wt : WT) (d : Dict) (wt' : WT) (p : List Str) (m
               | cons k2 q2 => simp [slotAt, getPath, hd, assign, hp]
           | int i => simp [hd] at h
           | str s => simp [hd] at h
+          | atom s => simp [hd] at h
           | dict d' =>
             cases hs : setFields sub d' with
             | error e => simp [hd, hs] at h
@@ -293,6 +296,7 @@ theorem slotAt_setFields : ∀ (wt : WT) (d : Dict) (wt' : WT) (p : List Str) (m
             | ok rest' => simp [hd, hr] at h; subst h; simpa [slotAt, hk] using hrest rest' hr
           | int i => simp [hd] at h
           | str s => simp [hd] at h
+          | atom s => simp [hd] at h
           | dict d' =>
             cases hs : setFields sub d' with
             | error e => simp [hd, hs] at h
